@@ -82,10 +82,11 @@ func checkObsThreading(c *Ctx, p *Prog, R *BusRoles, rule string) {
 // otelRule explores one method of the OpenTelemetry implementation.
 type otelRule struct {
 	BaseRule
-	counts map[string]int
-	errKey string
-	kind   string            // "start" or "complete"
-	instr  map[string]string // field name -> role (by the instrument's public name)
+	counts   map[string]int
+	errKey   string
+	kind     string            // "start" or "complete"
+	instr    map[string]string // field name -> role (by the instrument's public name)
+	selected map[string]string
 }
 
 func (r *otelRule) Inline(fn *ssa.Function) bool { return PkgOf(fn) == PkgOtel }
@@ -132,6 +133,21 @@ func getCount(sigma, name string) int {
 	return 0
 }
 
+// setEntry records a one-off marker in sigma; a marker with the same prefix up to the last
+// '@' (an earlier selection at the same call) is replaced.
+func setEntry(sigma, name string) string {
+	pre := name[:strings.LastIndex(name, "@")+1]
+	var ks []string
+	for _, kv := range strings.Split(sigma, ",") {
+		if kv != "" && !strings.HasPrefix(kv, pre) {
+			ks = append(ks, kv)
+		}
+	}
+	ks = append(ks, name+"=1")
+	sortStrings(ks)
+	return strings.Join(ks, ",")
+}
+
 func sortStrings(s []string) {
 	for i := 1; i < len(s); i++ {
 		for j := i; j > 0 && s[j] < s[j-1]; j-- {
@@ -142,6 +158,18 @@ func sortStrings(s []string) {
 
 func (r *otelRule) OnInstr(e *Engine, st *State, fc *FrameCtx, in ssa.Instruction) bool {
 	if _, isDefer := in.(*ssa.Defer); isDefer && !st.ExecDefer {
+		return false
+	}
+	// an instrument selected by an explored helper: remember which field it returned
+	if ret, isRet := in.(*ssa.Return); isRet && len(ret.Results) == 1 && fc.parent != nil {
+		if site, ok := fc.site.(*ssa.Call); ok {
+			if t2, fld, _, ok := fieldLoad(ret.Results[0]); ok && t2 == "Observability" {
+				if r.selected == nil {
+					r.selected = map[string]string{}
+				}
+				st.Sigma = setEntry(st.Sigma, "sel@"+fc.parent.id+":"+site.Name()+"@"+fld)
+			}
+		}
 		return false
 	}
 	ci, ok := in.(ssa.CallInstruction)
@@ -160,6 +188,15 @@ func (r *otelRule) OnInstr(e *Engine, st *State, fc *FrameCtx, in ssa.Instructio
 		st.Sigma = bump(st.Sigma, "span-end")
 	case (tn == "Int64Counter" || tn == "Float64Histogram") && (c.Method.Name() == "Add" || c.Method.Name() == "Record"):
 		t2, fld, _, ok := fieldLoad(c.Value)
+		if call, isCall := stripConv(c.Value).(*ssa.Call); !ok && isCall {
+			// selected by a helper explored on this path
+			pre := "sel@" + fc.id + ":" + call.Name() + "@"
+			for _, kv := range strings.Split(st.Sigma, ",") {
+				if strings.HasPrefix(kv, pre) {
+					t2, fld, ok = "Observability", strings.TrimSuffix(kv[len(pre):], "=1"), true
+				}
+			}
+		}
 		if !ok {
 			// the instrument may have been handed to a helper as an argument
 			cn := e.CanonS(fc, c.Value)
